@@ -1269,7 +1269,7 @@ def check_C19(ctx, rt):
     serial = {c: run_call(c) for c in calls}
     S = fresh_selfies()
     nthreads = rt.n(8, 16)
-    rounds = rt.n(3, 30)
+    rounds = rt.n(3, 8)
     old = sys.getswitchinterval()
     mism = []
     try:
